@@ -79,6 +79,7 @@ func (s *State) String() string {
 }
 
 func (s *State) get() State {
+	util.VerifYield("cb.state.get")
 	return State(atomic.LoadInt32((*int32)(s)))
 }
 
@@ -87,6 +88,7 @@ func (s *State) set(update State) {
 }
 
 func (s *State) cas(expect State, update State) bool {
+	util.VerifYield("cb.state.cas")
 	return atomic.CompareAndSwapInt32((*int32)(s), int32(expect), int32(update))
 }
 
@@ -152,18 +154,22 @@ func (b *circuitBreakerBase) CurrentState() State {
 }
 
 func (b *circuitBreakerBase) retryTimeoutArrived() bool {
+	util.VerifYield("cb.retry.load")
 	return util.CurrentTimeMillis() >= atomic.LoadUint64(&b.nextRetryTimestampMs)
 }
 
 func (b *circuitBreakerBase) updateNextRetryTimestamp() {
+	util.VerifYield("cb.retry.store")
 	atomic.StoreUint64(&b.nextRetryTimestampMs, util.CurrentTimeMillis()+uint64(b.retryTimeoutMs))
 }
 
 func (b *circuitBreakerBase) addCurProbeNum() {
+	util.VerifYield("cb.probe.add")
 	atomic.AddUint64(&b.curProbeNumber, 1)
 }
 
 func (b *circuitBreakerBase) resetCurProbeNum() {
+	util.VerifYield("cb.probe.reset")
 	atomic.StoreUint64(&b.curProbeNumber, 0)
 }
 
@@ -314,7 +320,9 @@ func (b *slowRtCircuitBreaker) OnRequestComplete(rt uint64, _ error) {
 	if rt > b.maxAllowedRt {
 		atomic.AddUint64(&counter.slowCount, 1)
 	}
+	util.VerifYield("cb.counter.add")
 	atomic.AddUint64(&counter.totalCount, 1)
+	util.VerifYield("cb.counter.sum")
 
 	slowCount := uint64(0)
 	totalCount := uint64(0)
@@ -363,6 +371,7 @@ func (b *slowRtCircuitBreaker) OnRequestComplete(rt uint64, _ error) {
 }
 
 func (b *slowRtCircuitBreaker) resetMetric() {
+	util.VerifYield("cb.metric.reset")
 	for _, c := range b.stat.allCounter() {
 		c.reset()
 	}
@@ -502,7 +511,9 @@ func (b *errorRatioCircuitBreaker) OnRequestComplete(_ uint64, err error) {
 	if err != nil {
 		atomic.AddUint64(&counter.errorCount, 1)
 	}
+	util.VerifYield("cb.counter.add")
 	atomic.AddUint64(&counter.totalCount, 1)
+	util.VerifYield("cb.counter.sum")
 
 	errorCount := uint64(0)
 	totalCount := uint64(0)
@@ -548,6 +559,7 @@ func (b *errorRatioCircuitBreaker) OnRequestComplete(_ uint64, err error) {
 }
 
 func (b *errorRatioCircuitBreaker) resetMetric() {
+	util.VerifYield("cb.metric.reset")
 	for _, c := range b.stat.allCounter() {
 		c.reset()
 	}
@@ -687,7 +699,9 @@ func (b *errorCountCircuitBreaker) OnRequestComplete(_ uint64, err error) {
 	if err != nil {
 		atomic.AddUint64(&counter.errorCount, 1)
 	}
+	util.VerifYield("cb.counter.add")
 	atomic.AddUint64(&counter.totalCount, 1)
+	util.VerifYield("cb.counter.sum")
 
 	errorCount := uint64(0)
 	totalCount := uint64(0)
@@ -730,6 +744,7 @@ func (b *errorCountCircuitBreaker) OnRequestComplete(_ uint64, err error) {
 }
 
 func (b *errorCountCircuitBreaker) resetMetric() {
+	util.VerifYield("cb.metric.reset")
 	for _, c := range b.stat.allCounter() {
 		c.reset()
 	}
